@@ -387,6 +387,7 @@ type upHistory struct {
 	retained  bool
 	dropped   bool
 	nFaults   int
+	snapshots int
 	anomalies []string
 }
 
@@ -494,6 +495,26 @@ func (h *upHistory) retain(k uint64) {
 	h.retained = true
 	h.steps = append(h.steps, L(I(2), U(k)))
 	h.events = append(h.events, L(I(2), U(k), u64sSx(listL0(dir))))
+}
+
+// snapshot: a level-9 file 1..pos appears on the replica (DB.Snapshot uploads it independently of
+// the level-0 uploads, so it may be AHEAD of the replica's level 0). Level 9 is not part of what
+// Replica.sync reads: in the model the step changes nothing (HSnap).
+func (h *upHistory) snapshot() {
+	ctx := context.Background()
+	pos, rd, err := h.src.db.SnapshotReader(ctx)
+	if err != nil {
+		return
+	}
+	defer rd.Close()
+	if pos.TXID == 0 {
+		return
+	}
+	if _, err := h.fc.inner.WriteLTXFile(ctx, litestream.SnapshotLevel, 1, pos.TXID, rd); err != nil {
+		return
+	}
+	h.steps = append(h.steps, L(I(5), U(uint64(pos.TXID))))
+	h.snapshots++
 }
 
 func (h *upHistory) emit(e *env, class string) {
@@ -692,6 +713,23 @@ func genUpload(e *env) error {
 		}(i)
 	}
 	wg2.Wait()
+	// (3) directed: the snapshot level is ahead of the replica's level 0 when the cached position is
+	// lost (one transient fault of each kind, or a new Replica object = restart) and has to be recomputed:
+	// the un-uploaded level-0 files must still be uploaded (seed C05d: position recomputed from level 9)
+	for di, fk := range []cOutcome{{1, 0}, {2, 0}, {3, 40}, {4, 150}, {0, 0}} {
+		for _, listFault := range []bool{false, true} {
+			sub := &env{extra: map[string]any{}}
+			h, err := directedSnapshotAhead(sub, NewRand(e.seed+3000+int64(di)), filepath.Join(root, fmt.Sprintf("d%d%v", di, listFault)), fk, listFault)
+			if err != nil {
+				return err
+			}
+			h.emit(e, "upload/directed/snapshot-ahead")
+			for _, v := range sub.impl {
+				e.violation(v.Signature, v.Detail, v.Replay)
+			}
+			e.extra["upload_restores"] = asInt(e.extra["upload_restores"]) + asInt(sub.extra["upload_restores"])
+		}
+	}
 	for _, x := range sr {
 		if x.err != nil {
 			return x.err
@@ -703,6 +741,46 @@ func genUpload(e *env) error {
 		e.extra["upload_restores"] = asInt(e.extra["upload_restores"]) + asInt(x.sub.extra["upload_restores"])
 	}
 	return nil
+}
+
+// directedSnapshotAhead: 3 files uploaded; 2 more staged locally; a snapshot of position 5 reaches the
+// replica; the next sync loses its cached position through one fault (a failing write, or with
+// listFault a failing listing after a clean loss of the position); then the fault-free suffix.
+func directedSnapshotAhead(e *env, r *rand.Rand, dir string, fk cOutcome, listFault bool) (*upHistory, error) {
+	src, err := newSrcDB(dir)
+	if err != nil {
+		return nil, err
+	}
+	defer os.RemoveAll(dir)
+	if err := src.open(file.NewReplicaClient(filepath.Join(dir, "unused"))); err != nil {
+		return nil, err
+	}
+	defer src.close()
+	h := newUpHistory(src, filepath.Join(dir, "replica"))
+	for i := 0; i < 3; i++ {
+		if err := src.write(r); err != nil {
+			return nil, err
+		}
+	}
+	h.noteLocal()
+	h.sync(0, nil)
+	for i := 0; i < 2; i++ {
+		if err := src.write(r); err != nil {
+			return nil, err
+		}
+	}
+	h.noteLocal()
+	h.snapshot()
+	if listFault {
+		h.sync(0, []cOutcome{fk, {1, 0}}) // the write fails (position cleared), ...
+		h.sync(0, []cOutcome{{1, 0}})     // ... the listing that recomputes it fails once, ...
+	} else {
+		h.sync(0, []cOutcome{fk})
+	}
+	h.sync(1, nil) // ... and the position is recomputed while level 9 is ahead of level 0
+	h.sync(0, nil)
+	h.finalChecks(e, "upload/directed/snapshot-ahead", true)
+	return h, nil
 }
 
 func randomUploadHistory(e *env, r *rand.Rand, dir string) (*upHistory, string, error) {
@@ -734,6 +812,10 @@ func randomUploadHistory(e *env, r *rand.Rand, dir string) (*upHistory, string, 
 				}
 			}
 			h.noteLocal()
+			if r.Intn(4) == 0 { // a snapshot ahead of the level-0 uploads
+				h.snapshot()
+				class = "upload/sampled/snapshot-ahead"
+			}
 		case k < 8:
 			ns := r.Intn(7)
 			sc := make([]cOutcome, ns)
@@ -834,6 +916,8 @@ func replayUpload(e *env, c Case) error {
 			h.noteLocal()
 		case 2:
 			h.retain(st.At(1).Uint())
+		case 5:
+			h.snapshot()
 		case 3:
 			h.sync(int(st.At(1).Int()), dec(st.At(2)))
 		default:
